@@ -32,9 +32,9 @@ from ..symx import lift, RV, SymReal, explore, Inconclusive
 
 PID = 'C19'
 IDS = [10, 11, 12, 13, 14]
-STRATA = [{10, 11}, {12, 13, 14}]
+STRATA = [{12, 13, 14}, {10, 11}]  # (deliberately not listed in increasing order of their smallest element)
 ATTRS = ('tt', 'cost')
-SIZES = {'1-1': (1, 1), '1-2': (1, 2), '2-2': (2, 2), 'complete': (2, 3)}
+SIZES = {'1-1': (1, 1), '2-1': (2, 1), '2-2': (2, 2), 'complete': (3, 2)}
 
 
 class SV:
@@ -93,17 +93,18 @@ def cnl_nests(sv):
         OneNestForCrossNestedLogit(nest_param=beta('mu_1', sv), dict_of_alpha={11: 0.5, 12: 1.0, 13: 1.0, 14: 1.0}, name='n1')))
 
 
-def context(sv, choice, sizes, mev_sizes, symbolic, nests=False, cnl=False):
+def context(sv, choice, sizes, mev_sizes, symbolic, nests=False, cnl=False, strata=None):
+    strata = strata or STRATA
     import biogeme.expressions as ex
     from biogeme.partition import Partition
     from biogeme.sampling_of_alternatives import SamplingContext, CrossVariableTuple
     alts, ind = tables(sv, choice, symbolic)
     V = beta('b_tt', sv) * ex.Variable('tt') + beta('b_cost', sv) * ex.Variable('cost') + beta('b_at', sv) * ex.Variable('age_tt')
     combined = [CrossVariableTuple('age_tt', ex.Variable('age') * ex.Variable('tt') + ex.Variable('cost'))]
-    part = Partition([set(s) for s in STRATA], full_set=set(IDS))
+    part = Partition([set(s) for s in strata], full_set=set(IDS))
     kw = {}
     if mev_sizes is not None:
-        kw = dict(mev_partition=Partition([set(s) for s in STRATA], full_set=set(IDS)), mev_sample_sizes=list(mev_sizes))
+        kw = dict(mev_partition=Partition([set(s) for s in strata], full_set=set(IDS)), mev_sample_sizes=list(mev_sizes))
         if cnl:
             kw['cnl_nests'] = cnl_nests(sv)
     return SamplingContext(the_partition=part, sample_sizes=list(sizes), individuals=ind, choice_column='CHOICE', alternatives=alts,
@@ -164,8 +165,8 @@ class env:
         return self.ctx.__exit__(*exc)
 
 
-def stratum_of(a):
-    for s, st in enumerate(STRATA):
+def stratum_of(a, strata=None):
+    for s, st in enumerate(strata or STRATA):
         if a in st:
             return s
     raise KeyError(a)
@@ -179,8 +180,14 @@ def scenario(c, decide, sizes_name, choice, model, sv, symbolic=True):
     from biogeme.sampling_of_alternatives import ChoiceSetsGeneration, GenerateModel
     eqs = []
     sizes = SIZES[sizes_name]
-    mev_sizes = (2, 3) if model in ('nested', 'cnl') else ((1, 2) if model == 'mev-protocol' else None)
-    ctx_ = context(sv, choice, sizes, mev_sizes, symbolic, cnl=(model == 'cnl'))
+    mev_sizes = (3, 2) if model in ('nested', 'cnl') else ((2, 1) if model == 'mev-protocol' else None)
+    strata = STRATA
+    if model == 'cnl':
+        # (the normal form of the cross-nested equality is only reached with the strata in increasing order; the order of the
+        # strata is exercised by all other items)
+        strata = sorted(STRATA, key=min)
+        sizes = mev_sizes = tuple(len(s_) for s_ in strata)
+    ctx_ = context(sv, choice, sizes, mev_sizes, symbolic, cnl=(model == 'cnl'), strata=strata)
     gen = ChoiceSetsGeneration(ctx_)
     db = gen.sample_and_merge(recycle=False)
     row = db.data.iloc[0]
@@ -188,13 +195,13 @@ def scenario(c, decide, sizes_name, choice, model, sv, symbolic=True):
     listed = [int(row[f'ID_{i}']) for i in range(K)]
     eqs.append(('the chosen alternative is listed first', listed[0], int(choice)))
     eqs.append(('no alternative is listed twice', len(set(listed)), len(listed)))
-    for s, st in enumerate(STRATA):
+    for s, st in enumerate(strata):
         got = [a for a in listed if a in st]
         eqs.append((f'stratum {s}: exactly the requested number of alternatives, all from the stratum', len(got), sizes[s]))
     eqs.append(('every listed alternative belongs to a stratum', all(a in IDS for a in listed), True))
     for i, a in enumerate(listed):
-        s = stratum_of(a)
-        want = math.log(sizes[s] / len(STRATA[s]))
+        s = stratum_of(a, strata)
+        want = math.log(sizes[s] / len(strata[s]))
         eqs.append(('correction term of a listed alternative is ln(k/n) of its stratum',
                     abs(float(row[f'_log_proba_{i}']) - want) < 1e-12, True))
         for at in ATTRS:
@@ -205,11 +212,11 @@ def scenario(c, decide, sizes_name, choice, model, sv, symbolic=True):
         K2 = sum(mev_sizes)
         listed2 = [int(row[f'_MEV_ID_{i}']) for i in range(K2)]
         eqs.append(('second sample: no alternative twice', len(set(listed2)), len(listed2)))
-        for s, st in enumerate(STRATA):
+        for s, st in enumerate(strata):
             eqs.append((f'second sample, stratum {s}: exactly the requested number', len([a for a in listed2 if a in st]), mev_sizes[s]))
         for i, a in enumerate(listed2):
-            s = stratum_of(a)
-            eqs.append(('second sample: weight n/k of the stratum', abs(float(row[f'_MEV__mev_weight_{i}']) - len(STRATA[s]) / mev_sizes[s]) < 1e-12,
+            s = stratum_of(a, strata)
+            eqs.append(('second sample: weight n/k of the stratum', abs(float(row[f'_MEV__mev_weight_{i}']) - len(strata[s]) / mev_sizes[s]) < 1e-12,
                         True))
             for at in ATTRS:
                 eqs.append(('second sample: attributes of a listed alternative are its own', row[f'_MEV_{at}_{i}'],
@@ -248,7 +255,7 @@ def items_for(tier):
             items.append((sz, choice, 'logit'))
     for choice in (11, 12):
         items.append(('complete', choice, 'nested'))
-        items.append(('1-2', choice, 'mev-protocol'))
+        items.append(('2-1', choice, 'mev-protocol'))
     for choice in (11,):
         items.append(('complete', choice, 'cnl'))
     if tier == 'thorough':
